@@ -3,6 +3,8 @@
 # (quick tier, VERIF_SEED=1), each in a scratch worktree of /repo's HEAD with a shadow build of the
 # simulator; /repo's working tree is never touched. Prints one line per change; exit 1 if one is missed.
 # usage: seeded_all.sh [pattern]        e.g. seeded_all.sh 'C0[5-9]-*'
+# With HARVEST_DIR=<dir> the minimised replay files of each change are collected in <dir>/<change>/
+# (candidates for corpus/, see tools/harvest_corpus.sh).
 cd "$(dirname "$0")/.." || exit 2
 ROOT=$(pwd)
 WT=/tmp/wt-seeded-$$
@@ -13,7 +15,9 @@ for d in seeded/${1:-*}; do
   git -C /repo worktree remove --force $WT >/dev/null 2>&1
   git -C /repo worktree add -q --detach $WT HEAD || exit 2
   ( cd $WT && git apply "$ROOT/$d/patch.diff" ) || { echo "$m patch-does-not-apply"; missed=1; continue; }
+  [ -n "$HARVEST_DIR" ] && rm -f replays/$p-*.json
   out=$(VERIF_REPO=$WT ./check.sh $p quick 2>&1); rc=$?
+  if [ -n "$HARVEST_DIR" ]; then mkdir -p "$HARVEST_DIR/$m"; cp replays/$p-*.json "$HARVEST_DIR/$m/" 2>/dev/null; fi
   cls=$(echo "$out" | grep -E "^violation" | head -2 | sed -E 's/^violation class=([^ ]+).*/\1/' | tr '\n' ' ')
   if [ $rc -eq 1 ]; then echo "$m caught $cls"; else echo "$m MISSED exit=$rc"; missed=1; fi
   rm -rf "$ROOT/target/shadow-$(echo "$WT" | tr '/' '_')"
